@@ -20,7 +20,8 @@
    b23a063: packets from a not yet accepted peer no longer reach its connection -- defect #21;
    e2e7a4f: Net::reject sends the close message itself instead of panicking). *)
 From LibTw2 Require Import Base.Res Model.PacketTypes Model.ConnCore Model.Conn6 Model.NetEndpoint
-  Proofs.ConnCoreInv Proofs.Conn6Inv Proofs.NetEndpointSpec Proofs.NetEndpointSim Proofs.NetEndpointInv.
+  Proofs.ConnCoreInv Proofs.Conn6Inv Proofs.NetEndpointSpec Proofs.NetEndpointSim Proofs.NetEndpointInv
+  Proofs.NetEndpointPids.
 From Coq Require Import ZArith List Bool.
 Open Scope Z_scope.
 
@@ -120,7 +121,55 @@ Theorem C20_gone_after_close : forall n e a r out pid reason, NoDup (pids (n_pee
   pid_live (no_net out) pid = false.
 Proof. exact gone_after_close. Qed.
 
-(* ---------- non-vacuity, and the history of defect #21 ---------- *)
+(* "The calls on the pid that belongs to address a" is well-defined: a live pid keeps its address and
+   token flag across every call (`keeps`), and every event carries the pid under which the table holds
+   the event's address (before the call for what a peer's connection reports, after it for the Connect
+   event of a new pending peer). *)
+Theorem C20_pid_owner_stable : forall n e o out, NoDup (pids (n_peers n)) -> net_step n e o = Ok out ->
+  forall pid p p', get_peer (n_peers n) pid = Some p -> get_peer (n_peers (no_net out)) pid = Some p' ->
+    p_addr p' = p_addr p /\ p_token p' = p_token p.
+Proof.
+  intros n e o out Hnd H pid p p' Hg Hg'. pose proof (step_keeps n e o out Hnd H pid p' Hg') as Hk.
+  rewrite Hg in Hk. exact Hk.
+Qed.
+
+Theorem C20_event_pids : forall n e o out, NoDup (pids (n_peers n)) -> net_step n e o = Ok out ->
+  Forall (event_pid_ok n (no_net out)) (no_events out).
+Proof. exact step_event_pids. Qed.
+
+(* ---------- the two defects, pinned on the code as it was ---------- *)
+(* #21: with the routing before fix b23a063 a repeated Connect makes the pending peer's connection
+   answer before the application accepted, and Net::accept then panics *)
+Example C20_defect21_before_fix_refuted :
+  exists e a r pid, raw_ok r /\ rand_ok e /\
+    match net_feed_before_fix (net_new true) e a r with
+    | Ok o1 =>
+      no_events o1 = [{| ne_addr := a; ne_pid := Some pid; ne_kind := NKConnect |}] /\ no_sent o1 = [] /\
+      match net_feed_before_fix (no_net o1) e a r with
+      | Ok o2 => no_sent o2 = [(a, DControl (Some [1; 2; 3; 4]) 0 ConnectAccept)] /\
+                 net_step (no_net o2) e (NAccept pid) = Panic site_accept_not_pending
+      | _ => False
+      end
+    | _ => False
+    end.
+Proof.
+  exists (mkenv 0 [[1; 2; 3; 4]]), 7, (fun _ => Some (DControl (Some TOKEN_NONE) 0 (Connect None))), 0.
+  split; [intros h d H; injection H as <-; cbn; split; [reflexivity|unfold SEQ_MOD; split; [apply Z.le_refl|reflexivity]]|].
+  split; [split; [repeat constructor|eexists _, _; reflexivity]|].
+  vm_compute. repeat split; reflexivity.
+Qed.
+
+(* Net::reject before fix e2e7a4f panicked on every pending peer, whatever the reason *)
+Theorem C20_reject_before_fix_refuted : forall n e pid p reason,
+  get_peer (n_peers n) pid = Some p -> is_unconnected (p_conn p) = true ->
+  exists s, net_reject_before_fix n e pid reason = Panic s.
+Proof.
+  intros n e pid p reason Hg Hu. unfold net_reject_before_fix. rewrite Hg, Hu. cbn [negb].
+  unfold peer_call, step. unfold is_unconnected in Hu. destruct (c_state (p_conn p)); try discriminate.
+  destruct (existsb (fun b => b =? 0) reason); cbn [bind]; eexists; reflexivity.
+Qed.
+
+(* ---------- non-vacuity, and the history of defect #21 on the repaired code ---------- *)
 (* address 7 sends Connect twice before the application decides (the history that used to kill
    Net::accept), address 9 connects too; 7 is accepted, 9 rejected; a tick. *)
 Definition connect_raw : raw := fun _ => Some (DControl (Some TOKEN_NONE) 0 (Connect None)).
@@ -180,4 +229,8 @@ Print Assumptions C20_unknown_addr.
 Print Assumptions C20_pids_distinct.
 Print Assumptions C20_gone_after_disconnect.
 Print Assumptions C20_gone_after_close.
+Print Assumptions C20_pid_owner_stable.
+Print Assumptions C20_event_pids.
+Print Assumptions C20_defect21_before_fix_refuted.
+Print Assumptions C20_reject_before_fix_refuted.
 Print Assumptions C20_nonvacuous.
